@@ -187,3 +187,41 @@ def guard_call(name, callee, arg_idx=None, arg_name=None, expect=True, untested=
             return False
         return True
     return Guard(name, m, expect, untested)
+
+
+def natural_loops(fn):
+    """[(header, body blocks)] for every back edge of fn."""
+    from .cfg import back_edges
+    out = []
+    preds = fn.preds()
+    for (src, dst) in back_edges(fn):
+        body = {dst}
+        st = [src]
+        while st:
+            x = st.pop()
+            if x in body:
+                continue
+            body.add(x)
+            st.extend(preds[x])
+        out.append((dst, body))
+    return out
+
+
+def loop_exits_only_when(fn, rule, key, header_pred, allowed, why):
+    """The loop whose header block satisfies header_pred(block) is left from inside
+    its body (break / goto / return) only on paths where allowed(ctx, from_bid) holds;
+    leaving through the loop condition is always fine."""
+    from .cfg import Explorer
+    loops = [(h, b) for h, b in natural_loops(fn) if header_pred(fn.blocks[h])]
+    if len(loops) != 1:
+        raise AnalysisBroken('%s: expected one scan loop, found %d' % (fn.name, len(loops)))
+    head, body = loops[0]
+    bad = {}
+
+    def on_transfer(user, frm, to, ctx):
+        if frm in body and frm != head and to not in body:
+            if not allowed(ctx, frm):
+                blk = fn.blocks[frm]
+                line = (blk['events'][-1]['line'] if blk['events'] else (blk.get('term') or {}).get('line'))
+                bad[(frm, to)] = (line, ctx.trace())
+    return head, body, bad, on_transfer
